@@ -101,8 +101,7 @@ def hkBytes (v : List Fl) : HKey := tup [v.map HTok.fl]
 /-! ## weightings (odl/space/weighting.py and the two `impl='numpy'` families) -/
 
 /-- `np`: `NumpyTensorSpace…Weighting/Custom…`, `ps`: `ProductSpace…`.  Both have
-`impl == 'numpy'`, so `Weighting.__eq__` cannot tell them apart, `__hash__` (which contains
-`type(self)`) can. -/
+`impl == 'numpy'`; `Weighting.__eq__` and `__hash__` both look at `type(self)`. -/
 inductive WCls | np | ps
   deriving DecidableEq, Repr
 
@@ -121,9 +120,11 @@ def Weighting.exponent : Weighting → Fl
   | .const _ _ e | .array _ _ e => e
   | _ => .fin 2
 
-/-- `Weighting.__eq__` (base class): `isinstance(other, Weighting) and self.impl ==
-other.impl and self.exponent == other.exponent` (impl is `'numpy'` throughout). -/
-def Weighting.baseEq (a b : Weighting) : Bool := a.exponent.numEq b.exponent
+/-- `Weighting.__eq__` (base class): `type(other) is type(self) and self.impl ==
+other.impl and self.exponent == other.exponent` (impl is `'numpy'` throughout; the kind part
+of the type test is the `match` in `eqI`, the family part is `cls`). -/
+def Weighting.baseEq (a b : Weighting) : Bool :=
+  decide (a.cls = b.cls) && a.exponent.numEq b.exponent
 
 /-- `a.__eq__(b)` for the five weighting kinds as coded:
 `ConstWeighting`: base and `self.const == getattr(other, 'const', None)`;
@@ -168,13 +169,18 @@ structure IntervalProd where
 
 def IntervalProd.ndim (a : IntervalProd) : Nat := a.lo.length
 
-/-- `IntervalProd.__eq__`: `np.all(self.min_pt == other.min_pt) and np.all(self.max_pt ==
-other.max_pt)` — NumPy broadcasting included (see `npAllEq`). -/
-def IntervalProd.eqO (a b : IntervalProd) : Option Bool :=
+/-- `IntervalProd.__eq__` before the repair: `np.all(self.min_pt == other.min_pt) and
+np.all(self.max_pt == other.max_pt)` — NumPy broadcasting included (see `npAllEq`). -/
+def IntervalProd.eqOld (a b : IntervalProd) : Option Bool :=
   match npAllEq a.lo b.lo with
   | none => none
   | some false => some false
   | some true => npAllEq a.hi b.hi
+
+/-- `IntervalProd.__eq__`: `self.ndim == other.ndim and np.all(self.min_pt == other.min_pt)
+and np.all(self.max_pt == other.max_pt)`. -/
+def IntervalProd.eqO (a b : IntervalProd) : Option Bool :=
+  if a.ndim = b.ndim then a.eqOld b else some false
 
 /-- `hash((type(self), tuple(self.min_pt), tuple(self.max_pt)))` -/
 def IntervalProd.hk (a : IntervalProd) : HKey :=
@@ -193,8 +199,13 @@ def vecsAllEq : List (List Fl) → List (List Fl) → Bool
 /-- `RectGrid.__eq__`: same type, `self.shape == other.shape`, `np.array_equal` per axis. -/
 def Grid.eqI (a b : Grid) : Bool := decide (a.shape = b.shape) && vecsAllEq a.vecs b.vecs
 
-/-- `hash((type(self), tuple(cv.tobytes() for cv in self.coord_vectors)))` -/
-def Grid.hk (g : Grid) : HKey := tup [[HTok.tag .RectGrid], tup (g.vecs.map hkBytes)]
+/-- `hash((type(self), tuple((cv + 0.0).tobytes() for cv in self.coord_vectors)))`;
+adding `0.0` turns `-0.0` into `0.0` and changes nothing else. -/
+def Grid.hk (g : Grid) : HKey :=
+  tup [[HTok.tag .RectGrid], tup (g.vecs.map fun v => hkBytes (v.map Fl.canon))]
+
+/-- the hash before the repair: raw bytes, `-0.0` and `0.0` differ -/
+def Grid.hkOld (g : Grid) : HKey := tup [[HTok.tag .RectGrid], tup (g.vecs.map hkBytes)]
 
 structure Partition where
   set : IntervalProd
@@ -629,8 +640,21 @@ def mkProd (T : DTables) (l : List Space) : Option Space :=
   | [] => none
   | s :: _ => some (.prod l (defaultW .ps) (s.field T))
 
+/-- `ProductSpace(*spaces, weighting=w)`: field of the first space; raises for an empty list. -/
+def mkProdW (T : DTables) (l : List Space) (w : Weighting) : Option Space :=
+  match l with
+  | [] => none
+  | s :: _ => some (.prod l w (s.field T))
+
 /-- `ProductSpace(*spaces, field=f)` -/
 def mkProdF (l : List Space) (f : Fld) : Space := .prod l (defaultW .ps) f
+
+/-- the weighting `ProductSpace.__getitem__` passes on to a selection: a constant weighting
+(with its exponent) as is; array and custom weightings are not passed on (finding C20-F4,
+open for those). -/
+def selW : Weighting → Weighting
+  | .const c v e => .const c v e
+  | _ => defaultW .ps
 
 /-- common dtype of the components (`ProductSpace.dtype`; `none` = AttributeError) -/
 def commonDtype : List Space → Option DType
@@ -645,8 +669,8 @@ def commonDtype : List Space → Option DType
 
 mutual
 /-- `space.astype(dtype)` for all space classes.  `ProductSpace.astype`: `self` if the common
-dtype already is `dtype`, else `ProductSpace(*[s.astype(dtype) for s in self.spaces])` — the
-weighting and exponent of the product space are NOT passed on.  `castOk` is taken to hold
+dtype already is `dtype`, else `ProductSpace(*[s.astype(dtype) for s in self.spaces])` with the weighting object of `self`
+passed on for floating-point targets (as in `TensorSpace.astype`).  `castOk` is taken to hold
 for every array-weighted component (the harness only offers such cases). -/
 def Space.astype (T : DTables) : Space → DType → Option Space
   | .tensor t, dt => (t.astype T dt true).map .tensor
@@ -655,7 +679,7 @@ def Space.astype (T : DTables) : Space → DType → Option Space
     if Space.dtypeIs l dt then some (.prod l w f)
     else match Space.astypeL T l dt with
       | none => none
-      | some l' => mkProd T l'
+      | some l' => if T.isFloating dt then mkProdW T l' w else mkProd T l'
 def Space.astypeL (T : DTables) : List Space → DType → Option (List Space)
   | [], _ => some []
   | s :: l, dt => match Space.astype T s dt, Space.astypeL T l dt with
@@ -693,12 +717,12 @@ inductive PIdx
   deriving Repr
 
 /-- `ProductSpace.__getitem__` for an integer, slice or list index: a component, or
-`ProductSpace(*selected, field=self.field)` — the weighting / exponent of `self` is NOT
-passed on. -/
+`ProductSpace(*selected, field=self.field[, weighting=self.weighting])`, the weighting being
+passed on iff it is a constant weighting (`selW`). -/
 def Space.pindex : Space → PIdx → Option Space
   | .prod l _ _, .int i => l[i]?
-  | .prod l _ f, .slice s => some (mkProdF (selSlice l s) f)
-  | .prod l _ f, .list idx => (selList l idx).map fun l' => mkProdF l' f
+  | .prod l w f, .slice s => some (.prod (selSlice l s) (selW w) f)
+  | .prod l w f, .list idx => (selList l idx).map fun l' => .prod l' (selW w) f
   | _, _ => none
 
 /-- `NumpyTensorSpace.byaxis[indices]` for spaces without array weighting: the shape entries
@@ -709,11 +733,13 @@ def TSpace.byaxis (t : TSpace) : PIdx → Option TSpace
   | .list idx => (selList t.shape idx).map fun sh => ⟨sh, t.dtype, t.w⟩
 
 /-- Space of `x[indices]` for a `NumpyTensor` `x` when the result is not a scalar:
-`type(space)(arr.shape, dtype, exponent=space.exponent, weighting=space.weighting)`.
-The constructor rejects an array weighting whose shape differs from the new shape. -/
-def TSpace.indexSpace (t : TSpace) (newShape : List Nat) : Option TSpace :=
+`type(space)(arr.shape, dtype, exponent=space.exponent, weighting=w)` with `w` the weighting
+object of the space, except that an array weighting is replaced by a NEW
+`NumpyTensorSpaceArrayWeighting(weights[indices], exponent)` (`fresh` = identity token of the
+new array). -/
+def TSpace.indexSpace (t : TSpace) (newShape : List Nat) (fresh : Nat) : Option TSpace :=
   match t.w with
-  | .array _ _ _ => if newShape = t.shape then some ⟨newShape, t.dtype, t.w⟩ else none
+  | .array _ _ e => some ⟨newShape, t.dtype, .array .np fresh e⟩
   | _ => some ⟨newShape, t.dtype, t.w⟩
 
 end OdlModel.Spaces
